@@ -150,6 +150,53 @@ Merge(ss) ==
 Concat(ss)    == FlatSeq([i \in DOMAIN ss |-> CombosOf(ss[i])])
 ConcatLen(ss) == SumNat([i \in DOMAIN ss |-> LenOf(ss[i])])
 
+(* Sum expressions.  +, combine and MultiSweep(..) nest at will (s1 + (s2 + s3), MultiSweep(s1 + s2, s3),        *)
+(* s1.combine(MultiSweep(s2)) ..): a sum expression is a tree whose leaves are operands ss[i] and whose inner      *)
+(* nodes are "+" (x + y), "combine" (x.combine(y)) or "MultiSweep" (MultiSweep(x1, .., xm), m >= 0).  The three    *)
+(* node kinds mean the same thing, concatenation of what the children enumerate, whatever the children are (a      *)
+(* plain Sweep or again a sum): the enumeration of an expression is that of its leaves, left to right.             *)
+Leaf(i)      == [op |-> "leaf", i |-> i, ch |-> <<>>]
+Node(op, ch) == [op |-> op, i |-> 0, ch |-> ch]
+(* the operands as the expression sees them: L[i] = what operand i enumerates, N[i] = its len *)
+OperandLists(ss) == [i \in DOMAIN ss |-> CombosOf(ss[i])]
+OperandLens(ss)  == [i \in DOMAIN ss |-> LenOf(ss[i])]
+RECURSIVE EvalSum(_, _)          \* expr.list() == list(iter(expr))
+EvalSum(e, L) == IF e.op = "leaf" THEN L[e.i]
+                 ELSE IF e.ch = <<>> THEN <<>> ELSE FlatSeq([j \in DOMAIN e.ch |-> EvalSum(e.ch[j], L)])
+RECURSIVE LenSum(_, _)           \* len(expr): the lengths of the children add up
+LenSum(e, N) == IF e.op = "leaf" THEN N[e.i]
+                ELSE IF e.ch = <<>> THEN 0 ELSE SumNat([j \in DOMAIN e.ch |-> LenSum(e.ch[j], N)])
+RECURSIVE Leaves(_)              \* the operand numbers at the leaves, left to right
+Leaves(e) == IF e.op = "leaf" THEN <<e.i>>
+             ELSE IF e.ch = <<>> THEN <<>> ELSE FlatSeq([j \in DOMAIN e.ch |-> Leaves(e.ch[j])])
+
+(* Sweep objects over time.  A program forms sums step by step and keeps (and keeps using) every object it has:    *)
+(* objects 1..n are the operands ss, object n+k is the result of step k.  A step is [f |-> "sum", a |-> <<x, y>>]  *)
+(* (x + y, or x.combine(y)) or [f |-> "multi", a |-> <<x1, .., xm>>] (MultiSweep(x1, .., xm)); its arguments are   *)
+(* objects that exist, operands or earlier results, possibly the same one twice.  Sweeps are values: a step yields *)
+(* a NEW object that enumerates the concatenation of what its arguments enumerate at that moment, and it changes   *)
+(* no object that exists - neither an argument (left or right) nor any earlier result built from it.  Hence the    *)
+(* store only grows.  An object is [leafs, combos, len]: the operands it enumerates one after the other, the list  *)
+(* it must yield, its len.                                                                                         *)
+ObjOf(s, i)   == [leafs |-> <<i>>, combos |-> CombosOf(s), len |-> LenOf(s)]
+StoreInit(ss) == [i \in DOMAIN ss |-> ObjOf(ss[i], i)]
+StepStore(st, op) ==
+    Append(st, IF op.a = <<>> THEN [leafs |-> <<>>, combos |-> <<>>, len |-> 0]
+               ELSE [leafs  |-> FlatSeq([j \in DOMAIN op.a |-> st[op.a[j]].leafs]),
+                     combos |-> FlatSeq([j \in DOMAIN op.a |-> st[op.a[j]].combos]),
+                     len    |-> SumNat([j \in DOMAIN op.a |-> st[op.a[j]].len])])
+RECURSIVE RunStore(_, _)
+RunStore(st, ops) == IF ops = <<>> THEN st ELSE RunStore(StepStore(st, Head(ops)), Tail(ops))
+(* the same, said without the history: what an object with these leaves enumerates *)
+ObjCombos(ss, leafs) == IF leafs = <<>> THEN <<>> ELSE Concat([j \in DOMAIN leafs |-> ss[leafs[j]]])
+ObjLen(ss, leafs)    == IF leafs = <<>> THEN 0 ELSE ConcatLen([j \in DOMAIN leafs |-> ss[leafs[j]]])
+(* the sum expression object o denotes: the history unfolded (sp = how "sum" steps are spelled: "+" or "combine") *)
+RECURSIVE ExprOf(_, _, _, _)
+ExprOf(n, ops, sp, o) ==
+    IF o <= n THEN Leaf(o)
+    ELSE LET op == ops[o - n] IN
+         Node(IF op.f = "sum" THEN sp ELSE "MultiSweep", [j \in DOMAIN op.a |-> ExprOf(n, ops, sp, op.a[j])])
+
 (* sweep.filtered_sweep(keys).list(): the distinct projections onto keys (here: in order of first appearance; *)
 (* the property fixes no order).  Claimed for sweeps without constants or exclude.                            *)
 Project(c, keys) == [k \in keys |-> c[k]]
@@ -259,6 +306,32 @@ LawConcat(ss) ==
               LET off == SumNat([j \in 1..(i - 1) |-> Len(CombosOf(ss[j]))]) IN
               SubSeq(C, off + 1, off + Len(CombosOf(ss[i]))) = CombosOf(ss[i])
         /\ (Len(ss) = 3 => C = Concat(<<ss[1], ss[2]>>) \o CombosOf(ss[3]))
+
+(* L6b: generalised associativity: whatever the nesting and the spelling of a sum, it enumerates its leaves left   *)
+(*      to right (for leaves 1..n in order: exactly Concat(ss)), and its len is the length of that list           *)
+LawSumExpr(e, ss) ==
+    (\A i \in DOMAIN ss : ErrorOf(ss[i]) = "") =>
+        LET lv == Leaves(e)  L == OperandLists(ss)  N == OperandLens(ss)  E == EvalSum(e, L) IN
+        /\ E = (IF lv = <<>> THEN <<>> ELSE FlatSeq([j \in DOMAIN lv |-> L[lv[j]]]))
+        /\ LenSum(e, N) = Len(E)
+        /\ (lv = [i \in DOMAIN ss |-> i] => E = Concat(ss) /\ LenSum(e, N) = ConcatLen(ss))
+
+(* L6c: objects over time (st = the store after the history `ops`): every object enumerates the sum expression  *)
+(*      it denotes - its leaves left to right - whatever was done with it or with its arguments afterwards, and   *)
+(*      a step leaves every object that existed before it as it was.  The enumeration itself is compared for the  *)
+(*      newest object (for all of them before the first step): the others were compared in the state before the   *)
+(*      last step and have not changed since (last conjunct).                                                      *)
+LawHistory(ss, ops, sp, st) ==
+    (\A i \in DOMAIN ss : ErrorOf(ss[i]) = "") =>
+        LET n == Len(ss)  init == StoreInit(ss) IN
+        /\ Len(st) = n + Len(ops)
+        /\ \A o \in DOMAIN st : st[o].leafs = Leaves(ExprOf(n, ops, sp, o))
+        /\ \A o \in (IF ops = <<>> THEN DOMAIN st ELSE {Len(st)}) :
+              LET e == ExprOf(n, ops, sp, o) IN
+              /\ LawSumExpr(e, ss)
+              /\ st[o].combos = EvalSum(e, OperandLists(ss)) /\ st[o].combos = ObjCombos(ss, st[o].leafs)
+              /\ st[o].len = LenSum(e, OperandLens(ss))      /\ st[o].len = ObjLen(ss, st[o].leafs)
+        /\ \A k \in 0..Len(ops) : RunStore(init, SubSeq(ops, 1, k)) = SubSeq(st, 1, n + k)
 
 (* L7: filtered = the distinct projections, each once *)
 LawFiltered(s, keys) ==
